@@ -427,6 +427,8 @@ def bind_params(E, fn, c, args, kw, st, qualname):
                     names.remove(n)
         except (TypeError, ValueError):
             names = None
+        if isinstance(fn, type) and not names and c is not None and c.params:
+            names = None          # a class whose constructor is (*args, **kwargs): use the contract's parameter list
     if names is None:
         if c is not None and c.params is None:
             # assumed external without a declared signature: every argument is accepted
@@ -846,6 +848,12 @@ def _call_repo_pure(E, fdef, qualname, env, st):
         for k2, a2 in o.heap.items():
             st.heap.setdefault(k2, a2)
     if not rets:
+        if not outs and not dropped:
+            # every branch was pruned: the enclosing path condition is already contradictory (an earlier feasibility
+            # check was inconclusive); mark the path infeasible instead of giving up on the function
+            st.assume(z3.BoolVal(False))
+            yield st, E.fresh(OPAQUE, "infeasible")
+            return
         raise OutsideSubset(f"{qualname}: no normal return in a pure context")
     for cond, v, facts in rets:
         for f in facts:
